@@ -144,6 +144,9 @@ class Rig:
         newly = [t for t in active if id(t) not in self.active_prev]
         for t in newly:
             self.started[id(t)] = now
+        busy_prev_now = getattr(self, 'busy_now', set())
+        self.busy_prev = busy_prev_now
+        self.busy_now = {t.username for t in active}
         self.active_prev = {id(t) for t in active}
         if active:
             youngest = max(self.started.get(id(t), 0.0) for t in active)
@@ -169,8 +172,10 @@ class Rig:
             if r_started < 0:
                 self.add('offline-user-started', f"t={now:.2f}: upload to offline user {t.username} started",
                          'C05:offline-user-started')
+            # the decision was taken during the batch that just ran: a user whose other upload was still active at the
+            # previous boundary was not eligible when it was taken (its upload may have ended in the same batch)
             waiting = {x.username for x in ups if x.state.VALUE == TransferState.State.QUEUED
-                       and x.username not in per_user}
+                       and x.username not in per_user and x.username not in self.busy_prev}
             better = [u for u in waiting if rank(self.known[u]) > r_started]
             if better:
                 self.add('priority-inverted', f"t={now:.2f}: upload to {t.username} (rank {r_started}) started while "
